@@ -52,6 +52,8 @@ StepFails(h2, s) ==
     LET ev == s.ev IN
        F("Safe", SafeOK(h2))
     \o F("Quiescence", QuietP(s.post) => SyncedP(s.post, h2))
+    \o F("Stays", (ev.t \in {"deliver", "send"} /\ ~Skipped(ev) /\ s.pre.link = "up" /\ s.pre.I.sock /\ s.pre.A.sock)
+                     => (s.post.I.sock /\ s.post.A.sock))
     \o F("T1", (ev.t = "restart" /\ ~Skipped(ev)) =>
                  (s.post[ev.e].nin = s.pre[ev.e].nin /\ s.post[ev.e].nout = s.pre[ev.e].nout))
     \o F("T2", \A x, y \in h2.wire : (x[1] = y[1] /\ x[2] = y[2]) => x = y)
